@@ -248,11 +248,18 @@ def _inv(ctx, p, rng):
     D, P, n, pivot = p['D'], p['P'], p['n'], p['pivot']
     a = _mat_series(rng, D, P, n, pivot=pivot)
     a = a * (10.0 ** float([0, 0, -12, 12, -170, 160][int(rng.integers(6))]))      # the inverse is representable although det(A) may not be
+    idt = None
+    if rng.random() < 0.2:
+        # integer-valued matrices stored with an integer dtype: the inverse is computed in floating point, as numpy.linalg.inv does
+        a = np.round(a / np.max(np.abs(a[0])) * 5.0)
+        idt = [np.int64, np.int32, np.int16][int(rng.integers(3))]
+        if min(abs(np.linalg.det(a[0, pp])) for pp in range(P)) < 0.5:
+            ctx.skip('out_of_domain:cond'); return
     cond = max(lin.cond2(a[0, pp]) for pp in range(P))
     if cond > 1e3:
         ctx.skip('out_of_domain:cond'); return
     mech = 'inv:%s' % ('pivot' if pivot else 'nopivot')
-    ok, r = _call(ctx, mech, [algopy.inv, UTPM.inv][int(rng.integers(2))], UTPM(gen.relayout(a, gen.LAYOUTS[int(rng.integers(5))])))
+    ok, r = _call(ctx, mech, [algopy.inv, UTPM.inv][int(rng.integers(2))], UTPM(gen.relayout(a if idt is None else a.astype(idt), gen.LAYOUTS[int(rng.integers(5))])))
     if not ok:
         ctx.violation(mech + ':raises:' + type(r).__name__, {'n': n, 'D': D, 'P': P, 'error': repr(r)[:200]}); return
     if not isinstance(r, UTPM) or r.data.shape != a.shape:
@@ -286,12 +293,20 @@ def _solve(ctx, p, rng):
             b = b + 0.5j * rng.normal(size=b.shape) * np.max(np.abs(b)) * (np.arange(b.shape[0]).reshape(-1, 1, 1, 1) == 0 if kinds == 'UA' else 1)
             if kinds == 'UA':
                 b[0, 1:] = b[0, 0]
+    idt = None
+    if not np.iscomplexobj(a) and not np.iscomplexobj(b) and rng.random() < 0.2:
+        # integer-valued operands stored with integer dtypes (both, or only one of them)
+        a = np.round(a / np.max(np.abs(a[0])) * 5.0); b = np.round(b / max(np.max(np.abs(b)), 1e-300) * 4.0)
+        idt = [(np.int64, np.int64), (np.int32, None), (None, np.int16), (np.int16, np.int32)][int(rng.integers(4))]
+        if min(abs(np.linalg.det(a[0, pp])) for pp in range(P)) < 0.5:
+            ctx.skip('out_of_domain:cond'); return
     cond = max(lin.cond2(a[0, pp]) for pp in range(P))
     if cond > 1e3:
         ctx.skip('out_of_domain:cond'); return
     lay = gen.LAYOUTS[int(rng.integers(5))]
-    A = UTPM(gen.relayout(a, lay)) if kinds[0] == 'U' else np.array(a[0, 0], order='F' if rng.random() < 0.5 else 'C')
-    B = UTPM(gen.relayout(b, gen.LAYOUTS[int(rng.integers(5))])) if kinds[1] == 'U' else np.array(b[0, 0], order='F' if lay == 'F' else 'C')
+    a_, b_ = (a, b) if idt is None else (a if idt[0] is None else a.astype(idt[0]), b if idt[1] is None else b.astype(idt[1]))
+    A = UTPM(gen.relayout(a_, lay)) if kinds[0] == 'U' else np.array(a_[0, 0], order='F' if rng.random() < 0.5 else 'C')
+    B = UTPM(gen.relayout(b_, gen.LAYOUTS[int(rng.integers(5))])) if kinds[1] == 'U' else np.array(b_[0, 0], order='F' if lay == 'F' else 'C')
     mech = 'solve:%s:%s:%s' % (kinds, 'pivot' if pivot else 'nopivot', 'multi' if k > 1 else 'single')
     ok, r = _call(ctx, mech, [algopy.solve, UTPM.solve][int(rng.integers(2))], A, B)
     if not ok:
